@@ -189,10 +189,11 @@ def run(db, cx):
             if is_geo_call(ev, "move_internal", 1):
                 evs = f.blocks[b]["ev"]
                 cleared = any(e["e"] == "write" and path_leaf(e.get("path")) == C + "Propagation::boundary"
+                              and e.get("path", {}).get("root") == "l:result"
                               and e.get("rhs") == "false" for e in evs)
                 guarded = False
                 for br in f.branch_blocks(lambda c, _b: "F:" + C + "Propagation::boundary" in c.get("refs", [])
-                                          and "op" not in c):
+                                          and "result" in c.get("refs", []) and "op" not in c):
                     if f.guarded_by_edge((b, i), br, f.cond_polarity_edge(br, False)):
                         guarded = True
                 cx.ob("C08.4-flag-matches-geo", "move_internal @%s happens with result.boundary false [%s]"
@@ -204,7 +205,7 @@ def run(db, cx):
             if is_geo_call(ev, "move_to_boundary", 0):
                 guarded = False
                 for br in f.branch_blocks(lambda c, _b: "F:" + C + "Propagation::boundary" in c.get("refs", [])
-                                          and "op" not in c):
+                                          and "result" in c.get("refs", []) and "op" not in c):
                     if f.guarded_by_edge((b, i), br, f.cond_polarity_edge(br, True)):
                         guarded = True
                 cx.ob("C08.4-flag-matches-geo", "move_to_boundary only under result.boundary [%s]" % tag,
